@@ -4,12 +4,10 @@
 (* (the XOF output is a prefix-closed stream, so this is the same function).        *)
 EXTENDS Hash
 
-\* Algorithm 29
-RECURSIVE SampleInBallWith(_, _)
-SampleInBallWith(ct, extra) ==
-  LET s == H(ct, 8 + extra)
-      avail == 8 + extra
-      \* st = <<c, next read position (1-based) in s, ok>>
+\* Algorithm 29 on an explicit byte stream s of which `avail` bytes may be read: << c, ok >>, ok = FALSE when the
+\* stream ran out before tau positions were found.  (MC_Sampling quantifies over ALL streams at reduced size.)
+SampleInBallFrom(s, avail) ==
+  LET \* st = <<c, next read position (1-based) in s, ok>>
       step(st, i) ==
          IF ~st[3] THEN st ELSE
          LET RECURSIVE find(_)
@@ -21,7 +19,11 @@ SampleInBallWith(ct, extra) ==
                 c2 == [c1 EXCEPT ![j] = IF Bit(s, i + TAU - N) = 1 THEN Q - 1 ELSE 1]
             IN << c2, p + 1, TRUE >>
       fin == FoldLeft(step, << [j \in Idx |-> 0], 9, TRUE >>, [x \in 1 .. TAU |-> N - TAU + x - 1])
-  IN IF fin[3] THEN TLCEval(fin[1]) ELSE SampleInBallWith(ct, 2 * extra)
+  IN << fin[1], fin[3] >>
+RECURSIVE SampleInBallWith(_, _)
+SampleInBallWith(ct, extra) ==
+  LET r == SampleInBallFrom(H(ct, 8 + extra), 8 + extra)
+  IN IF r[2] THEN TLCEval(r[1]) ELSE SampleInBallWith(ct, 2 * extra)
 SampleInBall(ct) == SampleInBallWith(ct, 4 * TAU + 64)      \* result in 0..Q-1 (-1 is Q-1)
 
 \* Algorithm 30
